@@ -9,9 +9,14 @@ CONSTANTS
   MAXGRAINS = 3
   UNIQ_NUM = 1
   UNIQ_DEN = 2
+  NPASS = 1
+  MINPKS2 = 2
+  NCAP = 0
+  ALLHITS = FALSE
 INVARIANT GaRange
 INVARIANT AcceptedScore
 INVARIANT GrainCap
+INVARIANT PairCap
 INVARIANT NoRepeat
 INVARIANT OwnPeaksKept
 INVARIANT Completeness
